@@ -1,5 +1,5 @@
 """C15  RAIRE's assertion set is the least difficult sufficient set."""
-from checks.c04 import as_tuple, run_raire
+from checks.c04 import as_tuple, run_raire, total_ballots
 from oracles import irv_ref as ir
 from strategies import irv as si
 
@@ -40,7 +40,9 @@ def evaluate(case, out):
     except Exception as e:  # noqa
         out.lib_exception("compute_raire_assertions", e)
         return
-    true = ir.all_true_assertions(cands, real, difficulty=f, total=len(case["ballots"]))
+    true = ir.all_true_assertions(cands, real, difficulty=f, total=total_ballots(case))
+    if case.get("tot_extra"):
+        out.cls("more-auditable-ballots-than-records")
     opt = ir.min_max_difficulty(cands, winner, true)
     out.enumerated = len(ir.alternative_orders(cands, winner))
     if opt is None or not res or any(as_tuple(a) is None for a in res):
